@@ -2,9 +2,29 @@ package config
 
 import (
 	"fmt"
+	"strconv"
+	"strings"
 
 	uuid "github.com/gofrs/uuid/v5"
+	"gopkg.in/robfig/cron.v2"
 )
+
+// ParseCrontab validates a crontab string. cron.Parse never returns for a zero step
+// (e.g. "*/0 * * * *"), so steps are checked beforehand.
+func ParseCrontab(crontab string) (cron.Schedule, error) {
+	for _, field := range strings.Fields(crontab) {
+		for _, expr := range strings.Split(field, ",") {
+			rangeAndStep := strings.Split(expr, "/")
+			if len(rangeAndStep) != 2 {
+				continue
+			}
+			if step, err := strconv.Atoi(rangeAndStep[1]); err == nil && step == 0 {
+				return nil, fmt.Errorf("step of range should be a positive number: %s", expr)
+			}
+		}
+	}
+	return cron.Parse(crontab)
+}
 
 func ConvertFloatForBinding(value interface{}, bindingName string) (*float64, error) {
 	if value == nil {
